@@ -70,6 +70,7 @@ class SimLoop(asyncio.BaseEventLoop):
         self._externals = []       # handles to be inserted at a seeded ready position
         self.idle_jumps = 0
         self.aborting = False      # set once SimDeadlock / IterationCap has been raised
+        self.on_itercap = []       # callables run just before IterationCap is raised (diagnosis of the spinning tasks)
         if self.cfg.eager:
             self.set_task_factory(asyncio.eager_task_factory)
         self.handler_calls = []    # contexts passed to the loop's exception handler (not printed)
@@ -117,6 +118,8 @@ class SimLoop(asyncio.BaseEventLoop):
                 self._capped = True
                 self.cfg.cap += 2000          # grace for the shutdown phase
                 self.aborting = True
+                for hook in self.on_itercap:
+                    hook()
                 raise IterationCap(f"iteration cap reached at t={self._vnow}")
             raise RuntimeError("iteration cap exceeded twice")
         for hook in self.pre_iteration:
